@@ -47,6 +47,9 @@ def batch(rng, ctx, npk, big, budget):
             n = per_frame * rng.randrange(2, 1200)
         n = min(n, max(1, budget))
         p = wire.packet(rng, kind, n, ver)
+        if rng.random() < 0.5:
+            # packets that carry ids of their own (e.g. decoded elsewhere and re-encoded): the encoder's ids must win
+            p['dev'], p['st'], p['seq'] = rng.randrange(1, 65536), rng.randrange(1, 256), rng.randrange(65536)
         budget -= len(p['pl'])
         out.append(p)
         if budget <= 0:
@@ -57,7 +60,7 @@ def batch(rng, ctx, npk, big, budget):
 def gen(seed, nepisodes, prefix='r', big=True):
     rng = random.Random(seed)
     for i in range(nepisodes):
-        ops = [{'op': 'init', 'dev': rng.randrange(65536), 'stream': rng.randrange(256), 'seq': 0}]
+        ops = [{'op': 'init', 'dev': rng.choice([0, rng.randrange(65536)]), 'stream': rng.choice([0, rng.randrange(256)]), 'seq': 0}]
         ncalls = rng.choice([1, 1, 2, 3, 5])
         for _ in range(ncalls):
             r = rng.random()
@@ -88,8 +91,10 @@ def extremes(prefix='x'):
         for mx in (65559, 65558, 65535, 9000, 1500):
             p = wire.packet(rng, 'generic', n)
             p['pl'] = [(j * 7 + n) % 256 for j in range(n)]
+            q = wire.packet(rng, 'generic', 5)
+            q['ver'] = p['ver']
             ops = [{'op': 'init', 'dev': 1, 'stream': 1, 'seq': 0},
-                   {'op': 'encode', 'batch': [p], 'ctx': {'min': 0, 'max': mx}, 'ov': k % 3, 'fresh': False}]
+                   {'op': 'encode', 'batch': [p, q] if k % 2 else [p], 'ctx': {'min': 0, 'max': mx}, 'ov': k % 3, 'fresh': False}]
             yield {'id': '%s%d' % (prefix, k), 'comp': 'enc', 'ops': ops}
             k += 1
 
@@ -103,7 +108,7 @@ def wrap_history(prefix='w', ncalls=70, seq0=0, tag='0'):
     for k in range(ncalls):
         p = wire.packet(rng, 'generic', 1000)
         p['pl'] = [(k + j) % 256 for j in range(1000)]
-        ops.append({'op': 'encode', 'batch': [p], 'ctx': {'min': 0, 'max': 25}, 'ov': k % 3, 'decode': False})
+        ops.append({'op': 'encode', 'batch': [p], 'ctx': {'min': 0, 'max': 25}, 'ov': k % 3, 'decode': k == 0})
     return {'id': prefix + tag, 'comp': 'enc', 'ops': ops}
 
 
